@@ -807,6 +807,44 @@ def main(ctx):
                             queries=["nodes", "midpoints", "1 ulp outside/inside both ends", "1 ulp either side of inner nodes",
                                      "x0-1", "x0-1000", "xn+7", "xn+1e4"], containers=["f8", "list", "i8"]))
 
+    # tables that are evenly spaced up to a small displacement of some nodes, queried inside the slivers between the
+    # nominal and the real node positions: a shortcut for "evenly spaced" tables that decides evenness with a
+    # tolerance picks the neighbouring segment there
+    DELTAS = (1e-12, 1e-9, 1e-7, 1e-6, 8e-6, 9.9e-6, 1e-4, 1e-3)
+    unitsn = []
+    for n, step, x0 in ((4, 1.0, 0.0), (6, 0.25, -3.0), (5, 1000.0, 1e6), (9, 1e-3, 2.0)):
+        for j in range(0, n):
+            for dl in DELTAS:
+                for sg in (1.0, -1.0):
+                    unitsn.append((n, step, x0, j, dl * sg))
+    # long tables whose step grows slowly (every step within 1e-5 relative of the first)
+    for n in (201, 2001):
+        unitsn.append((n, 1.0, 0.0, "grow", 4e-9))
+
+    def expand_near(u):
+        n, step, x0, j, dl = u
+        if j == "grow":
+            xt = tuple(float(v) for v in np.cumsum(np.r_[x0, step * (1.0 + dl * np.arange(n - 1))]))
+            nominal = [x0 + step * k for k in (n // 2, n - 2, n - 1)]
+            real = [xt[n // 2], xt[n - 2], xt[n - 1]]
+        else:
+            xs = [x0 + step * k for k in range(n)]
+            xs[j] = xs[j] + dl * step
+            xt = tuple(xs)
+            nominal, real = [x0 + step * j], [xs[j]]
+        us = []
+        for p, q in zip(nominal, real):
+            us += [p, q, (p + q) / 2, q + (q - p), p - (q - p), float(np.nextafter(q, -np.inf)), float(np.nextafter(q, np.inf))]
+        us = tuple(u_ for u_ in dict.fromkeys(us))
+        for vt in (tuple(float(i % 2) * 1000.0 for i in range(len(xt))), tuple(float((i * i) % 7) for i in range(len(xt)))):
+            yield ("f8", xt, vt, us, False)
+            for uq in us:
+                yield ("f8", xt, vt, (uq,), True)
+
+    ctx.lattice("interplin-almost-even-tables", unitsn, one_interp, expand=expand_near,
+                bounds=dict(displacements_relative_to_step=list(DELTAS), tables=["4 x 1.0", "6 x 0.25", "5 x 1000 at 1e6", "9 x 1e-3", "201/2001 nodes, step growing by 4e-9 per node"],
+                            queries=["nominal node", "real node", "between", "beyond", "1 ulp either side"]))
+
     # ------------------------------------------------------------------
     # part 6: get_stats
     def getf(res, key, shape, case, rec):
